@@ -258,6 +258,8 @@ def ev(t, env, W):
             return _wrap_prim(t[1], t[2])
         if t[1] == "discr":
             return t[2]
+        if t[1] in ("f32", "f64"):
+            return FL(t[1], t[2])
         return OPAQUE
     if k == "AC":
         m = re.match(r"^(BUintD32|BUintD16|BUintD8|BUint|BIntD32|BIntD16|BIntD8|BInt)<N>::([A-Z_0-9]+)$", t[1])
@@ -353,6 +355,10 @@ def ev(t, env, W):
                 return 0
             if b[0] == "Err":
                 return 1
+            if b[0] == "Continue":
+                return 0
+            if b[0] == "Break":
+                return 1
         return OPAQUE
     if k == "VF":
         b = ev(t[1], env, W)
@@ -385,7 +391,19 @@ def ev(t, env, W):
     return OPAQUE
 
 
+def _flnum(f):
+    if f.is_inf():
+        return float("-inf") if f.sign else float("inf")
+    m = f.magnitude()
+    return -m if f.sign else m
+
+
 def _binop(op, a, b):
+    if isinstance(a, FL) and isinstance(b, FL):
+        if a.is_nan() or b.is_nan():
+            return op == "Ne" if op in ("Eq", "Ne", "Lt", "Le", "Gt", "Ge") else OPAQUE
+        x, y = _flnum(a), _flnum(b)
+        return {"Eq": x == y, "Ne": x != y, "Lt": x < y, "Le": x <= y, "Gt": x > y, "Ge": x >= y}.get(op, OPAQUE)
     if isinstance(a, bool) and isinstance(b, bool):
         if op == "Eq":
             return a == b
@@ -456,6 +474,10 @@ def _atom(t, env, W):
             return ("None",)
         return OPAQUE
     if name not in ATOM_METHODS:
+        if label.startswith("<") and not m.group(2) and name not in ARITH_METHODS:
+            r = _arith(name, label, [ev(a, env, W) for a in t[2]], W)
+            if r is not OPAQUE:
+                return r
         if name in ARITH_METHODS and not m.group(2):
             r = _arith(name, label, [ev(a, env, W) for a in t[2]], W)
             if r is not OPAQUE:
@@ -522,6 +544,11 @@ def _prim_atom(name, label, t, env, W):
     m = _PRIM_TRAIT.match(label)
     if m:
         args = [ev(a, env, W) for a in t[2]]
+        if m.group(3) == "TryFrom" and name == "try_from" and len(args) == 1 and isinstance(args[0], BN) and args[0].adt in UNSIGNED:
+            ty = m.group(1)
+            b = PRIM_BITS[ty]
+            hi_ = (1 << (b - 1)) - 1 if ty.startswith("i") else (1 << b) - 1
+            return ("Ok", PI(ty, args[0].v)) if args[0].v <= hi_ else ("Err", OPAQUE)
         if m.group(3) == "TryFrom" and name == "try_from" and len(args) == 1 and isinstance(args[0], PI):
             ty = m.group(1)
             b = PRIM_BITS[ty]
@@ -547,6 +574,8 @@ def _prim_atom(name, label, t, env, W):
                     return f.is_nan()
                 if name == "is_infinite":
                     return f.is_inf()
+                if name == "is_finite":
+                    return not (f.is_inf() or f.is_nan())
                 if name == "is_sign_negative":
                     return f.sign
                 if name == "to_bits":
@@ -562,11 +591,39 @@ def _prim_atom(name, label, t, env, W):
                 return PI("u32", b if ux == 0 else (ux & -ux).bit_length() - 1)
             if name == "count_ones":
                 return PI("u32", bin(ux).count("1"))
+            if name in ("checked_shr", "checked_shl") and len(args) == 2 and isinstance(args[1], PI):
+                if not (0 <= args[1].v < b):
+                    return ("None",)
+                return ("Some", _wrap_prim(ty, x >> args[1].v if name == "checked_shr" else x << args[1].v))
+            if name == "is_negative":
+                return x < 0
             if name == "wrapping_shr" and len(args) == 2 and isinstance(args[1], PI):
                 return _wrap_prim(ty, x >> (args[1].v % b))
             if name == "wrapping_shl" and len(args) == 2 and isinstance(args[1], PI):
                 return _wrap_prim(ty, x << (args[1].v % b))
         return None
+    if re.match(r"^core::option::Option(::)?<T>::unwrap_or(::<.*>)?$", label) and len(t[2]) == 2:
+        o = ev(t[2][0], env, W)
+        if isinstance(o, tuple) and o and o[0] == "Some":
+            return o[1]
+        if o == ("None",):
+            return ev(t[2][1], env, W)
+        return OPAQUE
+    if label.startswith("<core::option::Option<T> as core::ops::Try>::branch") and len(t[2]) == 1:
+        o = ev(t[2][0], env, W)
+        if isinstance(o, tuple) and o and o[0] == "Some":
+            return ("Continue", o[1])
+        if o == ("None",):
+            return ("Break", ("None",))
+        return OPAQUE
+    if "core::ops::FromResidual<core::option::Option<" in label and label.endswith("::from_residual"):
+        return ("None",)
+    if label.startswith("<[T; N] as core::cmp::PartialEq<[U; N]>>::") and len(t[2]) == 2:
+        a, b = ev(t[2][0], env, W), ev(t[2][1], env, W)
+        if all(isinstance(x, tuple) and x and x[0] == "arr" and all(isinstance(d, PI) for d in x[1]) for x in (a, b)):
+            eq = [d.v for d in a[1]] == [d.v for d in b[1]]
+            return eq if name == "eq" else (not eq)
+        return OPAQUE
     if label.endswith("ConvertFloatParts>::into_normalised_signed_parts") and len(t[2]) == 1:
         f = ev(t[2][0], env, W)
         if not isinstance(f, FL):
@@ -584,6 +641,27 @@ def _prim_atom(name, label, t, env, W):
     if m2 and len(t[2]) == 1:
         a = ev(t[2][0], env, W)
         if isinstance(a, PI):
+            return W.wrap(m2.group(1), a.v)
+        return OPAQUE
+    m2 = re.match(r"^<(u8|u16|u32|u64|u128|usize|i8|i16|i32|i64|i128|isize) as core::convert::TryFrom<(BUintD32|BUintD16|BUintD8|BUint)<N>>>::try_from$", label)
+    if m2 and len(t[2]) == 1:
+        a = ev(t[2][0], env, W)
+        if isinstance(a, BN):
+            ty = m2.group(1)
+            b = PRIM_BITS[ty]
+            hi_ = (1 << (b - 1)) - 1 if ty.startswith("i") else (1 << b) - 1
+            return ("Ok", PI(ty, a.v)) if a.v <= hi_ else ("Err", OPAQUE)
+        return OPAQUE
+    m2 = re.match(r"^<(BUintD32|BUintD16|BUintD8|BUint)<N> as num_traits::FromPrimitive>::from_(u8|u16|u32|u64|u128|usize)$", label)
+    if m2 and len(t[2]) == 1:
+        a = ev(t[2][0], env, W)
+        if isinstance(a, PI):
+            return ("Some", W.wrap(m2.group(1), a.v)) if a.v < (1 << W.bits(m2.group(1))) else ("None",)
+        return OPAQUE
+    m2 = re.match(r"^<(BUintD32|BUintD16|BUintD8|BUint)<N> as core::convert::From<(u8|u16|u32|u64|u128|usize)>>::from$", label)
+    if m2 and len(t[2]) == 1:
+        a = ev(t[2][0], env, W)
+        if isinstance(a, PI) and a.v < (1 << W.bits(m2.group(1))):
             return W.wrap(m2.group(1), a.v)
         return OPAQUE
     m2 = re.match(r"^<(u8|u16|u32|u64|u128|usize|i8|i16|i32|i64|i128|isize) as cast::CastFrom<(BUintD32|BUintD16|BUintD8|BUint|BIntD32|BIntD16|BIntD8|BInt)<N>>>::cast_from$", label)
@@ -608,8 +686,12 @@ def _arith(name, label, args, W, generics=None):
         if adt in UNSIGNED and name == "gcd" and "num_integer::Integer" in label and len(args) == 2 and isinstance(args[1], BN):
             import math
             return W.wrap(adt, math.gcd(args[0].v, args[1].v))
-        if adt in UNSIGNED and name == "to_u128" and "ToPrimitive" in label and len(args) == 1:
-            return ("Some", PI("u128", args[0].v)) if args[0].v < (1 << 128) else ("None",)
+        mm = re.match(r"^to_(u8|u16|u32|u64|u128|usize|i8|i16|i32|i64|i128|isize)$", name)
+        if adt in UNSIGNED and mm and "ToPrimitive" in label and len(args) == 1:
+            ty = mm.group(1)
+            b = PRIM_BITS[ty]
+            hi_ = (1 << (b - 1)) - 1 if ty.startswith("i") else (1 << b) - 1
+            return ("Some", PI(ty, args[0].v)) if args[0].v <= hi_ else ("None",)
         return OPAQUE
     w = W.bits(adt)
     signed = adt in SIGNED
